@@ -90,8 +90,18 @@ pub fn injectables(n: usize, stat_fixture: &str, auxv_trunc: &str) -> Vec<Inj> {
         v.push(Inj { name: name.into(), plan: plan.into_iter().map(|(k, a)| (k.to_string(), a)).collect(), failpoints: fps, opt, expect, allowed: allowed.iter().map(|s| s.to_string()).collect() });
     };
     add("failpoint SuspendThreads", vec![], 8, 0, vec![e("SuspendThreadsErrors"), e("PtraceAttachError"), e("1234")], &[]);
-    add("failpoint CpuInfoFileOpen", vec![], 16, 0, vec![e("WriteSystemInfoErrors"), e("WriteCpuInformationFailed")], &["sysinfo"]);
-    add("open(/proc/cpuinfo) for system info -> ENOENT", vec![("open:/proc/cpuinfo#0", en(libc::ENOENT))], 0, 0, vec![e("WriteSystemInfoErrors"), e("WriteCpuInformationFailed")], &["sysinfo"]);
+    add("failpoint CpuInfoFileOpen", vec![], 16, 0, vec![e("WriteSystemInfoErrors"), e("WriteCpuInformationFailed")], &["sysinfo.cpu"]);
+    add("open(/proc/cpuinfo) for system info -> ENOENT", vec![("open:/proc/cpuinfo#0", en(libc::ENOENT))], 0, 0, vec![e("WriteSystemInfoErrors"), e("WriteCpuInformationFailed")], &["sysinfo.cpu"]);
+    {
+        // a /proc/cpuinfo without the model / stepping fields: the CPU-information step fails softly
+        let path = format!("/verif/target/tmp/cpuinfo_incomplete_{}", std::process::id());
+        let _ = std::fs::create_dir_all("/verif/target/tmp");
+        let _ = std::fs::write(&path, "processor\t: 0\nvendor_id\t: GenuineIntel\ncpu family\t: 6\nflags\t\t: fpu\n\n");
+        v.push(Inj { name: "cpuinfo without model and stepping (system info)".into(), plan: vec![("open:/proc/cpuinfo#0".into(), Alt::Redirect(path))], failpoints: 0, opt: 0, expect: vec![e("WriteSystemInfoErrors"), e("WriteCpuInformationFailed")], allowed: vec!["sysinfo.cpu".into()] });
+    }
+    let mut add = |name: &str, plan: Vec<(&str, Alt)>, fps: u8, opt: u8, expect: Vec<(String, usize)>, allowed: &[&str]| {
+        v.push(Inj { name: name.into(), plan: plan.into_iter().map(|(k, a)| (k.to_string(), a)).collect(), failpoints: fps, opt, expect, allowed: allowed.iter().map(|s| s.to_string()).collect() });
+    };
     add("open(/proc/cpuinfo) for the stream -> EMFILE", vec![("open:/proc/cpuinfo#1", en(libc::EMFILE))], 0, 0, vec![e("WriteCpuInfoFailed")], &["raw.LinuxCpuInfo", "streams"]);
     add("open(status) for the stream -> EACCES", vec![("open:/proc/P/status#1", en(libc::EACCES))], 0, 0, vec![e("WriteThreadProcStatusFailed")], &["raw.LinuxProcStatus", "streams"]);
     add("both release files unreadable", vec![("open:/etc/lsb-release#0", en(libc::ENOENT)), ("open:/etc/os-release#0", en(libc::ENOENT))], 0, 0, vec![e("WriteOsReleaseInfoFailed")], &["raw.LinuxLsbRelease", "streams"]);
@@ -123,7 +133,7 @@ fn group(i: &Inj) -> &'static str {
         "attach"
     } else if n.contains("SuspendThreads") {
         "suspend-fp"
-    } else if n.contains("CpuInfoFileOpen") || n.contains("for system info") {
+    } else if n.contains("CpuInfoFileOpen") || n.contains("for system info") || n.contains("(system info)") {
         "cpuinfo-sys"
     } else if n.contains("cpuinfo) for the stream") {
         "cpuinfo-stream"
@@ -201,6 +211,15 @@ fn strip(norm: &Value, allowed: &[String]) -> Value {
         }
     }
     for a in allowed {
+        if a == "sysinfo.cpu" {
+            // the CPU identification fed by /proc/cpuinfo may be lost; architecture, platform, OS version stay
+            if let Some(si) = o.get_mut("sysinfo").and_then(|s| s.as_object_mut()) {
+                for k in ["level", "rev", "nproc", "cpu"] {
+                    si.remove(k);
+                }
+            }
+            continue;
+        }
         o.remove(a.as_str());
     }
     Value::Object(o)
@@ -650,7 +669,7 @@ fn subset_inj(bits: u8, n: usize) -> Inj {
     }
     if bits & 16 != 0 {
         expect.push(e("WriteCpuInformationFailed"));
-        allowed.push("sysinfo".into());
+        allowed.push("sysinfo.cpu".into());
     }
     Inj { name: format!("fail points {{{}}}", names.join(",")), failpoints: bits, expect, allowed, ..Default::default() }
 }
